@@ -195,7 +195,7 @@ fn duration_cases(set: &ConvSet) -> Vec<Case> {
     let mut out = Vec::new();
     for key in ["time", "prep time", "cook time"] {
         for (text, expect) in &forms {
-            for spelling in [0u8, 1] {
+            for spelling in [0u8, 1, 5, 6] {
                 out.push(Case { key, text: text.clone(), spelling, expect: expect.clone() });
             }
             if text.bytes().all(|b| b.is_ascii_digit()) {
@@ -211,6 +211,11 @@ fn other_cases() -> Vec<Case> {
     let mut push = |key: &'static str, text: &str, spellings: &[u8], expect: Expect| {
         for &s in spellings {
             out.push(Case { key, text: text.to_string(), spelling: s, expect: expect.clone() });
+            if s == 1 {
+                // the quoted-string spelling again with the key quoted, and inside a flow mapping
+                out.push(Case { key, text: text.to_string(), spelling: 5, expect: expect.clone() });
+                out.push(Case { key, text: text.to_string(), spelling: 6, expect: expect.clone() });
+            }
         }
     };
     let s = |v: &[u32]| Expect::Servings(v.to_vec());
@@ -333,6 +338,9 @@ fn source_with_alias(std_key: &str, key: &str, text: &str, spelling: u8, alias_p
     match spelling {
         0 => format!("{before}>> {key}: {text}\n{after}step\n"),
         1 => format!("---\n{before}{key}: \"{}\"\n{after}---\nstep\n", text.replace('\\', "\\\\").replace('"', "\\\"")),
+        // the key itself quoted, and the whole front matter as a flow mapping
+        5 => format!("---\n{before}\"{key}\": \"{}\"\n{after}---\nstep\n", text.replace('\\', "\\\\").replace('"', "\\\"")),
+        6 => format!("---\n{{\"{key}\": \"{}\", other: 1}}\n---\nstep\n", text.replace('\\', "\\\\").replace('"', "\\\"")),
         _ => format!("---\n{before}{key}: {text}\n{after}---\nstep\n"),
     }
 }
@@ -370,7 +378,10 @@ fn n_errors(r: &cooklang::RecipeResult) -> usize {
 fn eval_case(parser: &CooklangParser, cname: &str, c: &Case) -> Option<Violation> {
     // front-matter entries are also checked next to another spelling of the same standard key
     for alias_pos in 0..6u8 {
-        if matches!(alias_pos, 1 | 2) && (c.spelling == 0 || alias_entry(c.key).is_none()) {
+        if matches!(alias_pos, 1 | 2) && (c.spelling == 0 || c.spelling == 6 || alias_entry(c.key).is_none()) {
+            continue;
+        }
+        if alias_pos >= 3 && c.spelling == 6 {
             continue;
         }
         if matches!(alias_pos, 3 | 4) && (c.key != "time" || matches!(c.expect, Expect::Composed(..))) {
